@@ -55,6 +55,9 @@ def gen_hash(rng):
 
 
 def gen_txin(rng, big_ok=False):
+    if rng.random() < 0.07:
+        # (round u) a null (coinbase-style) outpoint: the one value for which copies may be tempted to share an object
+        return {'hash': '00' * 32, 'n': U32, 'script': gen_script(rng, big_ok), 'seq': pick_int(rng, 0, U32, (0xfffffffe,))}
     return {'hash': gen_hash(rng), 'n': pick_int(rng, 0, U32), 'script': gen_script(rng, big_ok),
             'seq': pick_int(rng, 0, U32, (0xfffffffe, 0x80000000, 0x7fffffff))}
 
@@ -115,8 +118,20 @@ def gen_tx(rng, max_in=4, max_out=4, big_ok=False, wit_mode=None, many=False):
         vin = [gen_txin(rng, big_ok) for _ in range(nin)]
         vout = [gen_txout(rng, big_ok) for _ in range(nout)]
         wit = gen_wit(rng, nin, big_ok, wit_mode)
-    return {'version': pick_int(rng, -2 ** 31, 2 ** 31 - 1, (1, 2, 0, -1)), 'vin': vin, 'vout': vout,
-            'locktime': pick_int(rng, 0, U32, (499999999, 500000000, 0x7fffffff, 0x80000000)), 'wit': wit}
+    tx = {'version': pick_int(rng, -2 ** 31, 2 ** 31 - 1, (1, 2, 0, -1)), 'vin': vin, 'vout': vout,
+          'locktime': pick_int(rng, 0, U32, (499999999, 500000000, 0x7fffffff, 0x80000000)), 'wit': wit}
+    if wit and any(wit) and len(vin) <= 4 and rng.random() < 0.08:
+        # (round u) a fixed-width field ECHOING the bytes of a variable-length one: the lock time repeats the first
+        # four bytes of the witness section (half of the time a tiny witness that fits into it entirely), so code that
+        # finds a section by searching for its bytes instead of by position meets a second occurrence
+        if rng.random() < 0.5:
+            tx['wit'] = wit = [[rhex(rng, 1)]] + [[] for _ in vin[1:]]
+
+        def _cs(n):
+            return bytes([n]) if n < 253 else b'\xfd' + n.to_bytes(2, 'little') if n < 0x10000 else b'\xfe' + n.to_bytes(4, 'little')
+        ws = b''.join(_cs(len(st)) + b''.join(_cs(len(it) // 2) + bytes.fromhex(it) for it in st) for st in wit)
+        tx['locktime'] = int.from_bytes(ws[:4].ljust(4, b'\0'), 'little')
+    return tx
 
 
 def gen_header(rng):
